@@ -912,12 +912,26 @@ def _gen_async_focus_case(rng, tier):
     names = [_name(rng)]
     if rng.random() < 0.4:
         names.append(_name(rng) + "x")
+    # PACK variant (third pass): three to five small files in the directory, each first filled with at most
+    # maxBlockSize/2 bytes, so that one asynchronous flush packs several of them into one block; the random
+    # writes / truncates that follow then hit packed segments *other than the last one* while the block is in flight
+    pack = rng.random() < 0.45
+    if pack:
+        maxb = rng.choice([8, 16, 16, 64])
+        names = sorted(set(names + [_name(rng) + suf for suf in rng.sample(["", "x", "y", "z"], rng.choice([2, 3, 4]))]))
     ops, size, pos, held = [], {}, {}, False
     for i, nm in enumerate(names):
         ops.append("create,%d,%s" % (i, nm))
         size[i], pos[i] = 0, 0
+    if pack:
+        for i in range(len(names)):
+            k = rng.randint(1, max(1, maxb // 2 if rng.random() < 0.8 else maxb // 4))
+            ops.append("write,%d,%s" % (i, bytes(rng.getrandbits(8) for _ in range(k)).hex()))
+            pos[i] = size[i] = k
     for _ in range(rng.randint(8, 40 if tier == "quick" else 100)):
         h = rng.randrange(len(names))
+        if pack and rng.random() < 0.5:
+            h = rng.randrange(max(1, len(names) - 1))   # prefer files that are not packed last
         r = rng.random()
         last = ops[-1].split(",")[0]
         if r < 0.12 or (held and last == "trunc" and r < 0.5) or (not held and last == "write" and r < 0.3):
@@ -1118,9 +1132,62 @@ def describe(cases, impl):
                     stale += 1
                 if "+s" in part or ":s" in part:
                     stored += 1
+    # open-flag matrix: every combination of access mode x append/create/excl/trunc, and what the path named
+    # at the time of the open (plain-model replay of the first 1500 cases) x what the implementation answered
+    combos, matrix, pages, maxwrite, handles_per_file = {}, {}, {}, 0, 0
+    for c, r in list(zip(cases, impl))[:1500]:
+        f = c.split(" ")
+        if not r or f[3] == "-" or r.startswith(("panic", "CRASH", "bad-op", "load=err")):
+            continue
+        fs = PlainFS()
+        if not fs.load(f[2]):
+            continue
+        os_ = f[3].split(";")
+        parts = r.split(";")[1:]
+        if len(parts) != len(os_):
+            continue
+        for o, part in zip(os_, parts):
+            a = o.split(",")
+            res = part.split("#")[0]
+            if a[0] == "open":
+                fl = a[3]
+                key = fl[0] + "".join(ch for ch in "acxt" if ch in fl[1:])
+                if fl[0] in "RWB" and not set(fl[1:]) - set("acxt"):
+                    combos[key] = combos.get(key, 0) + 1
+                parent, base = fs.split(unpath(a[2]))
+                if parent is None:
+                    tgt = "noparent"
+                elif base in SPECIAL:
+                    tgt = "special"
+                else:
+                    n = parent.kids.get(base)
+                    tgt = "missing" if n is None else ("dir" if n.is_dir else "file")
+                k2 = "%s/%s/%s" % (tgt, "".join(ch for ch in "cxt" if ch in fl[1:]) or "-", res if res.isalpha() else "?")
+                matrix[k2] = matrix.get(k2, 0) + 1
+            elif a[0] == "hreaddirn":
+                k3 = ("final" if "=" in res else "eof" if res == "0,eof" else "partial" if res[:1].isdigit() and res.endswith(",ok")
+                      else "whole-listing" if (":" in res or res == "-") else res)
+                pages[k3] = pages.get(k3, 0) + 1
+            elif a[0] == "write":
+                maxwrite = max(maxwrite, len(a[2]) // 2)
+            judge(fs, o, res)
+        per = {}
+        for hd in fs.h.values():
+            if not hd.ino.is_dir:
+                per[id(hd.ino)] = per.get(id(hd.ino), 0) + 1
+        handles_per_file = max([handles_per_file] + list(per.values()))
+    all48 = [m + "".join(ch for i, ch in enumerate("acxt") if bits >> i & 1) for m in "RWB" for bits in range(16)]
     return {"ops": ops, "result_classes": errs, "maxBlockSize": blocks, "cases_with_manifest": manif,
             "history_length": lens, "op_results_with_stored_segments": stored,
-            "op_results_with_stale_flush_channel": stale}
+            "op_results_with_stale_flush_channel": stale,
+            "open_flag_combinations_seen_of_48": len([k for k in all48 if k in combos]),
+            "open_flag_combinations_missing": [k for k in all48 if k not in combos],
+            "open_flag_combinations_min_count": min([combos.get(k, 0) for k in all48]),
+            "open_target_x_flags_x_result": dict(sorted(matrix.items())),
+            "paged_readdir_results": pages, "largest_write_bytes": maxwrite,
+            "max_open_handles_on_one_file_at_case_end": handles_per_file,
+            "distinct_block_size_limits": len(blocks),
+            "longest_history_ops": max([len(c.split(" ")[3].split(";")) for c in cases] + [0])}
 
 
 def neighbours(case, rng):
